@@ -48,7 +48,9 @@ def quantile_clauses(c, x, w, n, qs, r, perm):
         d['q%d_above_last' % k] = c.Implies(le(C(n - 1), qk), lambda k=k: c.Eq(r[k], X(n - 1)))
         d['q%d_between' % k] = c.ForallAdj(0, n - 1, lambda i, j, k=k, qk=qk: c.Implies(
             c.And(le(C(i), qk), c.Lt(qk, C(j))),
-            lambda: c.Eq(r[k], X(i) + (qk - C(i)) * ((X(j) - X(i)) / (C(j) - C(i))))))
+            # (replayed on floats the three levels reach this clause as value - sigma_m, value, value + sigma_p: accurate relative
+            #  to the samples they were formed from, not to a result that happens to be zero)
+            lambda: c.Eq(r[k], X(i) + (qk - C(i)) * ((X(j) - X(i)) / (C(j) - C(i))), scale=(max(abs(X(i)), abs(X(j))) if c.mode == 'conc' else None))))
     return d
 
 
